@@ -1,7 +1,7 @@
 #!/bin/bash
 # usage: mut.sh PROP file 'sed-expr'   -- run a check against a scratch copy with one edit
 set -e
-S=/tmp/pvs_scr; rm -rf $S; mkdir -p $S; cp -r /repo/tdgl $S/tdgl
+S=/tmp/pvs_scr; rm -rf $S; mkdir -p $S; cp -r /repo/tdgl $S/tdgl; cp -r /repo/docs $S/docs 2>/dev/null || true
 sed -i "$3" $S/tdgl/$2
 if diff -q /repo/tdgl/$2 $S/tdgl/$2 >/dev/null; then echo "NO CHANGE"; fi
 diff /repo/tdgl/$2 $S/tdgl/$2 | head -6
